@@ -412,6 +412,16 @@ def oracle(ctx, deep):
                         break
                 if hit:
                     break
+    # vector-valued coefficients that go through the velocity-shape guard of the gradient-inner-product operator: a
+    # vector of any length other than D is refused (not broadcast over the axes), one of length D is accepted
+    for cname in VECTOR_COEFFS:
+        for D in (1, 2, 3):
+            for n in (1, 2, 3, 4):
+                r = probe_vector_coefficient(cname, D, n)
+                ctx.count(("oracle_vector_coefficient", cname, D, n))
+                if not r["ok"]:
+                    fails.append({"key": f"C20:vector-coefficient:{cname}", "what": f"{cname} in D={D} given a coefficient vector of length {n}: {r['outcome']}, expected {r['expected']}",
+                                  "probe": "vector_coefficient", "args": {"cname": cname, "D": D, "n": n}, "observed": r})
     seen, out = set(), []
     for f in fails:
         if f["key"] not in seen:
@@ -420,5 +430,26 @@ def oracle(ctx, deep):
     return out
 
 
+VECTOR_COEFFS = {"Advection.velocity": ("Advection", "velocity"), "AdvectionDiffusion.velocity": ("AdvectionDiffusion", "velocity"),
+                 "Dispersion.dispersivity": ("Dispersion", "dispersivity")}
+
+
+def probe_vector_coefficient(cname, D, n):
+    import jax.numpy as jnp
+    ex = _ex()
+    cls, arg = VECTOR_COEFFS[cname]
+    N = 6
+    expected = "accepted" if n == D else "ValueError"
+    try:
+        st = getattr(ex.stepper, cls)(D, 1.0, N, 0.1, **{arg: jnp.asarray([0.2, -0.1, 0.3, 0.15][:n])})
+        out = st(jnp.ones((1,) + (N,) * D))
+        outcome = "accepted" if out.shape == (1,) + (N,) * D else f"accepted with output shape {out.shape}"
+    except ValueError:
+        outcome = "ValueError"
+    except Exception as e:   # noqa: BLE001
+        outcome = type(e).__name__
+    return {"ok": outcome == expected, "outcome": outcome, "expected": expected}
+
+
 def replay(probe, args):
-    return {"shape": probe_shape, "ic_options": probe_ic_options}.get(probe, probe_shape)(**args)
+    return {"shape": probe_shape, "ic_options": probe_ic_options, "vector_coefficient": probe_vector_coefficient}.get(probe, probe_shape)(**args)
